@@ -257,6 +257,78 @@ def _(T):
     return [[t, l] for t, l in zip(types, lists)]
 
 
+
+def _is_shape(n):
+    if isinstance(n, ast.Attribute):
+        return n.attr == "shape" or n.attr.endswith("_shape")
+    if isinstance(n, ast.Name):
+        return n.id.endswith("shape")
+    return False
+
+
+def _raises(node, exc):
+    for sub in ast.walk(node):
+        if isinstance(sub, ast.Raise) and sub.exc is not None:
+            f = sub.exc.func if isinstance(sub.exc, ast.Call) else sub.exc
+            if getattr(f, "id", getattr(f, "attr", None)) == exc:
+                return True
+    return False
+
+
+def _cmp_kind(fn):
+    for node in ast.walk(fn):
+        if isinstance(node, ast.If) and _raises(ast.Module(body=node.body, type_ignores=[]), "KernelError"):
+            test = node.test
+            has_gen = any(isinstance(x, (ast.GeneratorExp, ast.ListComp)) for x in ast.walk(test))
+            tuple_cmp = any(isinstance(x, ast.Compare) and _is_shape(x.left) and _is_shape(x.comparators[0])
+                            for x in ast.walk(test))
+            sub_cmp = [x for x in ast.walk(test) if isinstance(x, ast.Compare)
+                       and isinstance(x.left, ast.Subscript) and isinstance(x.comparators[0], ast.Subscript)]
+            if tuple_cmp and not has_gen:
+                return "tuple"
+            if has_gen or len(sub_cmp) >= 2:
+                return "elementwise"
+    raise Miss("PSF size test not recognised")
+
+
+@extractor("validate_facts")
+def _(T):
+    ptree, _ = T["pysersic.py"]
+    rtree, _ = T["rendering.py"]
+    fitter = _cmp_kind(find_func(ptree, "check_input_data"))
+    rend = _cmp_kind(find_func(rtree, "__init__", "BaseRenderer"))
+    hy = find_func(rtree, "__init__", "HybridRenderer")
+    square_only = None
+    for node in ast.walk(hy):
+        if (isinstance(node, ast.Assign) and isinstance(node.targets[0], ast.Tuple)
+                and [getattr(e, "id", None) for e in node.targets[0].elts] == ["psf_X", "psf_Y"]
+                and isinstance(node.value, ast.Call) and getattr(node.value.func, "attr", None) == "meshgrid"):
+            idx = []
+            for a in node.value.args:
+                subs = [x for x in ast.walk(a) if isinstance(x, ast.Subscript) and _is_shape(x.value)]
+                if len(subs) != 1:
+                    raise Miss("meshgrid argument not arange(psf_shape[i])")
+                idx.append(int(num(subs[0].slice)))
+            indexing = "xy"
+            for k in node.value.keywords:
+                if k.arg == "indexing":
+                    indexing = k.value.value
+            fits = (idx == [1, 0]) if indexing == "xy" else (idx == [0, 1])
+            square_only = not fits
+    if square_only is None:
+        raise Miss("hybrid PSF grid construction not recognised")
+    return dict(fitterCmp=fitter, rendererCmp=rend, hybridSquareOnly=square_only)
+
+
+@extractor("type_lists")
+def _(T):
+    rtree, _ = T["rendering.py"]
+    ptree, _ = T["priors.py"]
+    return dict(profile_types_render=str_list(module_assign(rtree, "base_profile_types")),
+                profile_types_priors=str_list(module_assign(ptree, "base_profile_types")),
+                sky_types=str_list(module_assign(ptree, "base_sky_types")))
+
+
 # ----------------------------------------------------------------------------
 # Lean emission
 # ----------------------------------------------------------------------------
@@ -280,6 +352,7 @@ def emit(c):
     A("/- GENERATED by tools/extract.py from the /repo working tree — do not edit.")
     A("   Regenerated on every run of ./check; theorems in Props/ are re-checked against it. -/")
     A("import PysersicModel.Scalar")
+    A("import PysersicModel.IO.Validate")
     A("")
     A("namespace Pysersic.Gen")
     A("")
@@ -303,6 +376,16 @@ def emit(c):
     A("/-- `base_sky_params` (priors.py) -/")
     A("def skyParams : List (String × List String) :=")
     A("  " + lean_list([f"({lean_str(t)}, {lean_list([lean_str(x) for x in l])})" for t, l in c["sky_table"]]))
+    A("")
+    vf = c["validate_facts"]
+    A("/-- structural facts deciding the outcome of input validation (pysersic.py, rendering.py) -/")
+    A("def validateFacts : Validate.Facts :=")
+    A(f"  ⟨.{vf['fitterCmp']}, .{vf['rendererCmp']}, {'true' if vf['hybridSquareOnly'] else 'false'}⟩")
+    A("")
+    tl = c["type_lists"]
+    A("def profileTypesRender : List String := " + lean_list([lean_str(x) for x in tl["profile_types_render"]]))
+    A("def profileTypesPriors : List String := " + lean_list([lean_str(x) for x in tl["profile_types_priors"]]))
+    A("def skyTypes : List String := " + lean_list([lean_str(x) for x in tl["sky_types"]]))
     A("")
     A("end Pysersic.Gen")
     return "\n".join(L) + "\n"
